@@ -74,10 +74,37 @@ class SymMemView:
     """Read-only memoryview over a list that somebody else owns and may overwrite (the internal buffer of a
     BufferedWriter, a caller's bytearray): every access sees the *current* content, slices alias the same
     memory, exactly like the memoryview CPython's buffered writer hands to raw.write()."""
-    __slots__ = ("_base", "_start", "_stop")
+    __slots__ = ("_base", "_start", "_stop", "_ro")
 
-    def __init__(self, base, start, stop):
-        self._base, self._start, self._stop = base, start, stop
+    def __init__(self, base, start, stop, ro=True):
+        self._base, self._start, self._stop, self._ro = base, start, stop, ro
+
+    @property
+    def readonly(self):
+        return self._ro
+
+    def __setitem__(self, i, v):
+        """memoryview(bytearray) is writable: writes go through to the owner, the size cannot change"""
+        if self._ro:
+            raise TypeError("cannot modify read-only memory")
+        n = self._stop - self._start
+        if isinstance(i, slice):
+            a, b, st = i.indices(n)
+            it = _items_of(v)
+            if it is None:
+                it = [_check_byte(x) for x in v]
+            idx = list(range(a, b, st))
+            if len(idx) != len(it):
+                raise ValueError("memoryview assignment: lvalue and rvalue have different structures")
+            for k, x in zip(idx, it):
+                self._base[self._start + k] = x
+            return
+        i = i.__index__()
+        if i < 0:
+            i += n
+        if not 0 <= i < n:
+            raise IndexError("index out of bounds on dimension 1")
+        self._base[self._start + i] = _check_byte(v)
 
     def _current(self):
         return list(self._base[self._start:self._stop])
@@ -98,7 +125,7 @@ class SymMemView:
             if st != 1:
                 return mkbytes(self._current()[i])
             b = max(a, b)
-            return SymMemView(self._base, self._start + a, self._start + b)
+            return SymMemView(self._base, self._start + a, self._start + b, self._ro)
         i = i.__index__()
         if i < 0:
             i += n
@@ -113,7 +140,6 @@ class SymMemView:
         return mkbytes(self._current()) != o
 
     __hash__ = None
-    readonly = True
     itemsize = 1
     ndim = 1
     format = "B"
@@ -409,7 +435,7 @@ class memoryview_(metaclass=_MemViewMeta):
         if isinstance(obj, SymMemView):
             return obj
         if isinstance(obj, SymByteArray):
-            return SymMemView(obj._items, 0, len(obj._items))      # aliases as long as the length is kept
+            return SymMemView(obj._items, 0, len(obj._items), False)      # aliases as long as the length is kept
         if isinstance(obj, SymBytes):
             return SymMemView(list(obj._items), 0, len(obj._items))
         return memoryview(obj)
